@@ -180,16 +180,19 @@ Definition build_lexical_environment (l : lambda) (closure_env_ptr : N) (closure
 
 (* continuation.rs:32-48, stack.rs:184-200 *)
 Definition to_continuation : M vcell := fun s =>
-  let k := mk_cont (firstn (S (N.to_nat (sp s))) (stack s)) (sp s) (ep s) (ip s) (bp s) in
+  let k := mk_cont (stack_to_sp s) (sp s) (ep s) (ip s) (bp s) in
   let '(cid, x) := new_cont (st s) k in ROk (VCont cid) (with_store s x).
+(* stack[..cont.len] = cont.stack (split_at_mut panics when the live stack is
+   shorter than the saved one; it never is: the Vec does not shrink) *)
+Fixpoint write_slots (l : list vcell) (i : N) (t : tbl vcell) : tbl vcell :=
+  match l with [] => t | v :: r => write_slots r (i + 1) (tset t i v) end.
 Definition restore_continuation (cid : N) : M unit := fun s =>
   match tget (conts (st s)) cid with
   | None => RPanic 46
   | Some k =>
-      let n := length (k_stack k) in
-      if (length (stack s) <? n)%nat then RPanic 47       (* split_at_mut out of range *)
+      if scap s <? len (k_stack k) then RPanic 47
       else
-        let s1 := with_stack s (k_stack k ++ skipn n (stack s)) (k_sp k) in
+        let s1 := with_stack s (write_slots (k_stack k) 0 (stack s)) (k_sp k) in
         ROk tt (with_acc (with_bp (with_ip (with_ep s1 (k_ep k)) (k_ip k)) (k_bp k)) VUndef)
   end.
 
@@ -514,8 +517,8 @@ Definition stack_trace (s : vm) : out trace :=
                 match k with
                 | O => Ok (rev acc0)
                 | S k' =>
-                    match nth_error (stack s) k' with
-                    | Some (VIp lp _) =>
+                    match sget s (N.of_nat k') with
+                    | VIp lp _ =>
                         do v <- heap_get (hp s) lp;
                         match v with
                         | VLambda lid2 =>
@@ -554,7 +557,7 @@ Fixpoint run_loop (fuel : nat) (cycles : N) (count : option N) (s : vm) : res ru
       match run_one s with
       | ROk true s' =>
           match to_cell (acc s') s' with
-          | ROk c s'' => ROk (Done c) (with_stack s'' (repeat VUndef (length (stack s''))) (sp s''))
+          | ROk c s'' => ROk (Done c) (with_stack s'' tempty (sp s''))
           | RErr e m s'' => RErr e m s''
           | RPanic k => RPanic k
           | RNoFuel => RNoFuel
@@ -566,7 +569,7 @@ Fixpoint run_loop (fuel : nat) (cycles : N) (count : option N) (s : vm) : res ru
           match stack_trace s' with
           | Ok t =>
               (* stack.clear(); sp = 0; bp = 0; ep = usize::MAX; acc = Undefined *)
-              let s1 := with_stack s' (repeat VUndef (length (stack s'))) 0 in
+              let s1 := with_stack s' tempty 0 in
               ROk (Failed e msg (Some t)) (with_acc (with_ep (with_bp s1 0) USIZE_MAX) VUndef)
           | Err _ => RPanic 51
           | Panic k => RPanic k
